@@ -122,12 +122,15 @@ def readVarint : Nat → Nat → Nat → Bytes → Except PbErr (Nat × Bytes)
 def rdVarint (bs : Bytes) : Except PbErr (Nat × Bytes) :=
   (readVarint 10 0 0 bs).map (fun (v, r) => (v % 2 ^ 64, r))
 
+/-- `bs` has at least `n` elements (without walking the whole list) -/
+def hasLen (bs : Bytes) (n : Nat) : Bool := n = 0 || !(bs.drop (n - 1)).isEmpty
+
 def rdFixed64 (bs : Bytes) : Except PbErr (Nat × Bytes) :=
-  if bs.length < 8 then .error .truncated else .ok (leValue (bs.take 8), bs.drop 8)
+  if !hasLen bs 8 then .error .truncated else .ok (leValue (bs.take 8), bs.drop 8)
 
 def rdBytes (bs : Bytes) : Except PbErr (Bytes × Bytes) := do
   let (n, rest) ← rdVarint bs
-  if rest.length < n then .error .truncated else .ok (rest.take n, rest.drop n)
+  if !hasLen rest n then .error .truncated else .ok (rest.take n, rest.drop n)
 
 /-- sint32 / sint64 zig-zag decoding, truncated to 32 bits as `sint32` fields are -/
 def unzz32 (u : Nat) : Int :=
@@ -150,7 +153,7 @@ def rdField (bs : Bytes) : Except PbErr (Field × Bytes) := do
   | 0 => let (v, r) ← rdVarint rest; pure (.varint n v, r)
   | 1 => let (v, r) ← rdFixed64 rest; pure (.fixed64 n v, r)
   | 2 => let (v, r) ← rdBytes rest; pure (.bytes n v, r)
-  | 5 => if rest.length < 4 then .error .truncated else pure (.fixed32 n, rest.drop 4)
+  | 5 => if !hasLen rest 4 then .error .truncated else pure (.fixed32 n, rest.drop 4)
   | _ => .error .badWireType
 
 def rdFields : Nat → Bytes → Except PbErr (List Field)
